@@ -388,3 +388,14 @@ def extra_coverage(results, tier):
         "lalr_shift_reduce_resolutions_logged": conflicts,
         "model_facts_vs_real_tree_comparisons": sum(i.get("tree_fact_comparisons", 0) for i in info),
     }
+
+
+MANIFEST = {
+    "text": "Bounded SAT/SMT (z3, bit-vector tokens): the productions Lark actually compiled from cel.lark and a reference CEL grammar are CYK-encoded over every token string "
+            "of length <= N; z3 proves there is no string on which the two assign different operator structure (precedence, associativity of every operator pair/triple that "
+            "fits), none the reference accepts and the real grammar rejects, and no ambiguity. Every sat witness is rendered to text and replayed through the real parser "
+            "against an independent precedence-climbing parser. AST-dump round trip: enumeration of solver models (labelled as enumeration).",
+    "note": "Bounds: N tokens (7 quick, 10 thorough). Outside: lexing (C re), strings longer than N, LALR table = productions (LR theory + conflict-log check + sampled model/tree comparison).",
+    "technique": "bounded SAT encoding (CYK-style, z3 bit-vectors) of the compiled grammar vs a reference grammar; witness replay on the real parser",
+    "design_ref": "DESIGN.md §3.1, §7 C06",
+}
